@@ -213,6 +213,10 @@ def run(ck):
                     except UnicodeDecodeError:
                         exp = None
                         ck.count("classlookup_undecodable_name")
+                    except struct.error:
+                        exp = None
+                        ck.fail(f"record {i}: a {len(p)}-byte payload (not a whole number of 16-byte entries) was parsed as a classification lookup "
+                                f"and is re-serialised as {len(bytes(o.record_data_bytes()))} bytes instead of being kept raw", inp)
                     if exp is not None and o.lookups != exp:
                         ck.fail(f"record {i}: classification lookup names changed: stored {exp!r:.100} presented {o.lookups!r:.100}", dict(inp, finding_key="C08:classlookup:names"))
         if ci < 3:
